@@ -175,6 +175,7 @@ func runC07(c *Ctx) {
 	checkWitnessSignaturesUseCompressedKeys(c, "C07-R2")
 	checkSumOutputValuesAddsEveryOutput(c, "C07-R1")
 	checkEstimatorArgumentKinds(c, "C07-R2")
+	checkNoStaleTailAfterInPlaceFilter(c, "C07-R4") // an input handed out twice is counted twice
 }
 
 // countsChange: v is (a conversion of) a phi merging len(txOuts) and len(txOuts)+1.
